@@ -281,6 +281,11 @@ func writeBaseline(prop string, rr *runResult, verbose bool) int {
 		if len(f.oos) > 0 {
 			fmt.Printf("OUT-OF-SUBSET %s: %s\n", f.fn, strings.Join(f.oos, "; "))
 		}
+		if verbose {
+			for _, a := range f.assum {
+				fmt.Printf("ASSUME %s: %s\n", f.fn, a)
+			}
+		}
 	}
 	for _, u := range rr.unbound {
 		fmt.Printf("UNBOUND %s\n", u)
